@@ -2,6 +2,8 @@ package main
 
 import (
 	"fmt"
+
+	"golang.org/x/tools/go/ssa"
 	"os"
 	"strings"
 	"unicode"
@@ -970,4 +972,21 @@ func splitTop(s string) []string {
 	}
 	out = append(out, s[last:])
 	return out
+}
+
+// specFor finds the contract of a function; instantiations of generic functions share the contract written for
+// the generic origin (e.g. "cache::(*Cache[V]).save").
+func (ss *SpecSet) specFor(fn *ssa.Function) *FuncSpec {
+	if fn == nil {
+		return nil
+	}
+	if sp, ok := ss.Funcs[funcKey(fn)]; ok {
+		return sp
+	}
+	if o := fn.Origin(); o != nil {
+		if sp, ok := ss.Funcs[funcKey(o)]; ok {
+			return sp
+		}
+	}
+	return nil
 }
